@@ -138,6 +138,6 @@ export function meta() {
   return {
     rule: 'G-PRAGMA: comment placement (13: after a hashbang line, followed / preceded / surrounded by other comments of the same group, file head, before first/middle/last top-level statement, inside a function, trailing at end of file, on the same line after an import, inside JSX) x style (5: //, /* */, /** */ single line, multi-line JSDoc, multi-line block) x annotation text (19: @jsx with several spacings/names, trailing words, no name, @jsxImportSource, @jsxRuntime, @jsxFrag, @jsxh, unrelated comments, mixed) x pragma option absent/present x optimize, on a module with several elements and fragments in and out of functions; plus modules with two different annotations. Every vnode call is observed at run time: the set of factories that received calls must be exactly one of the allowed outcomes; the import list must (not) contain createVNode accordingly. Full product in both tiers.',
     exhaustive: ['placement x style x text x option'],
-    assumptions: ['`@jsx h extra words` may select h or nothing; of two valid annotations either may win; a comment on the same line after an import may or may not count as "before a top-level statement"'],
+    assumptions: ['of two valid annotations either may win; a comment on the same line after an import may or may not count as "before a top-level statement"'],
   };
 }
